@@ -36,6 +36,9 @@ type Case struct {
 	// len(data)+*Limit bytes. At or under the limit the message may be refused (552, nothing
 	// stored) - but whatever is accepted must be complete.
 	Limit *int `json:"limit_delta,omitempty"`
+	// Lead is the number of empty lines in front of the header lines (the header block is then
+	// empty and everything transmitted is body).
+	Lead int `json:"lead,omitempty"`
 }
 
 var kinds = []string{"empty", "dot", "dotdot", "dottext", "text", "text", "text", "8bit", "nul", "barecr", "endcr", "crcr", "rand", "long"}
@@ -141,6 +144,7 @@ var prop = hx.Prop[Case]{
 			NoFinal: rapid.IntRange(0, 3).Draw(t, "nofinal") == 0,
 			NRcpt:   rapid.SampledFrom([]int{1, 1, 2, 3}).Draw(t, "nrcpt"),
 		}
+		c.Lead = rapid.SampledFrom([]int{0, 0, 0, 0, 1, 3}).Draw(t, "lead")
 		if rapid.IntRange(0, 3).Draw(t, "limited") == 0 {
 			d := rapid.SampledFrom([]int{-5000, -700, -100, -1, 0, 1, 100}).Draw(t, "limit_delta")
 			c.Limit = &d
@@ -209,7 +213,12 @@ func run(c Case) *hx.Outcome {
 	cfg := hx.DefaultCfg()
 	cfg.Backend = c.Backend
 	cfg.MaxMessageBytes = 64 << 20
-	data := append([]byte("Subject: c02\r\nFrom: a@a.test\r\n\r\n"), body...)
+	data := append([]byte(strings.Repeat("\r\n", c.Lead)+"Subject: c02\r\nFrom: a@a.test\r\n\r\n"), body...)
+	wantFrom, wantSubject := "a@a.test", "c02"
+	if c.Lead > 0 {
+		wantFrom, wantSubject = "s@a.test", "" // no header block: the envelope sender stands in
+		o.Class("message starts with an empty line")
+	}
 	wire, tx := hx.DotStuff(data)
 	if c.Limit != nil && hx.StdlibInverts(wire, tx) {
 		cfg.MaxMessageBytes = len(data) + *c.Limit
@@ -290,8 +299,8 @@ func run(c Case) *hx.Outcome {
 			name = fmt.Sprintf("box%d", i)
 		}
 		// every recipient's copy must carry the complete transmitted data
-		model.Add(&hx.EMsg{Mailbox: name, From: (&hx.Addr{Address: "a@a.test"}).Mail(), To: toList,
-			Subject: "c02", Sender: "s@a.test", Helo: "c.test", Data: tx, NotBefo: t0, NotAfter: time.Now()})
+		model.Add(&hx.EMsg{Mailbox: name, From: (&hx.Addr{Address: wantFrom}).Mail(), To: toList,
+			Subject: wantSubject, Sender: "s@a.test", Helo: "c.test", Data: tx, NotBefo: t0, NotAfter: time.Now()})
 	}
 	if err := hx.CmpE2E(w.Store, model, nil); err != nil {
 		o.Failf(pid+":store-content", "%v", err)
